@@ -792,6 +792,38 @@ fn ret_diff(want: &Value, got: &Value) -> String {
     "fields".into()
 }
 
+/// A response the specification's reader refuses although its envelope is well formed (a result code that cannot be reported):
+/// the caller must get an error, never a result.
+fn replay_response_fail(rt: &Runtime, v: &Value, rep: &mut Report) {
+    let op = v["op"].as_str().unwrap_or("").to_string();
+    let id = v["id"].as_i64().unwrap_or(1);
+    let bytes = bytes_of(&v["bytes"]);
+    let round = round_for_kind(&op);
+    rep.count(&format!("respfail:{}", op));
+    let (o, drv) = rt.block_on(async {
+        let mut c = open(0);
+        c.ldap.verif_set_msgmap((id - 1) as i32, &[]);
+        let b = bytes.clone();
+        let o = run_round(&mut c, &round, &mut |_raw| Some(b.clone())).await;
+        (o, close(c).await)
+    });
+    rep.eval(true, hash_of(&bytes));
+    if rep.samples.len() < 2 {
+        rep.sample(json!({"response_bytes": hex(&bytes), "operation": op, "outcome": o.out, "returned": o.ret}));
+    }
+    if o.out == "answered" {
+        let rc = o.ret.as_ref().map(|r| r["rc"].clone()).unwrap_or(Value::Null);
+        let succ = o.ret.as_ref().map(|r| r["success"] == json!(true)).unwrap_or(false);
+        let n = v["rcoct"].as_array().map(|a| a.len()).unwrap_or(0);
+        let key = format!("c03:unreportable-result-code:{}:reported-as-{}", if n == 0 { "empty" } else { "too-large" }, if succ { "success".to_string() } else { format!("rc-{}", rc) });
+        rep.mismatch(&key, json!({"operation": op, "response_bytes": hex(&bytes), "result_code_octets": v["rcoct"], "returned": o.ret, "driver": drv}));
+    } else if drv == "panicked" {
+        rep.mismatch("c03:unreportable-result-code:driver-panic", json!({"operation": op, "response_bytes": hex(&bytes)}));
+    } else {
+        rep.count("respfail:refused");
+    }
+}
+
 fn replay_response(rt: &Runtime, v: &Value, rep: &mut Report) {
     let op = v["op"].as_str().unwrap_or("").to_string();
     let id = v["id"].as_i64().unwrap_or(1);
@@ -938,6 +970,7 @@ fn replay(path: &str, rep: &mut Report) {
                 replay_history(&rt, v["start"].as_i64().unwrap_or(0), &rounds, &expect, &alts, rep);
             }
             "resp" => replay_response(&rt, &v, rep),
+            "respfail" => replay_response_fail(&rt, &v, rep),
             o => {
                 eprintln!("seq-run: unknown vector kind {}", o);
                 std::process::exit(2);
